@@ -11,6 +11,23 @@ import mirsym.models                                    # noqa: E402,F401
 
 KNOWN = os.path.join(VERIF, 'known_findings.jsonl')
 
+# Named replay predicates: name -> f(*args) -> (results -> (reproduced: bool, detail: str)).
+# Reports carry ['name', args...] so that they are plain data (picklable, written to replay.json).
+EXPECT = {}
+
+
+def expectation(name):
+    def deco(f):
+        EXPECT[name] = f
+        return f
+    return deco
+
+
+def resolve_expect(e):
+    if callable(e):
+        return e
+    return EXPECT[e[0]](*e[1:])
+
 
 def load_known():
     out = []
@@ -121,10 +138,43 @@ class Check:
                 return k
         return None
 
+    def parallel(self, fn, arglist, workers=None):
+        """Run fn(sub_check, *args) for each args in arglist in forked worker processes; merge obligations,
+        statistics and (data-only) reports into this check."""
+        import concurrent.futures as cf, multiprocessing as mp
+        workers = workers or min(len(arglist), int(os.environ.get('VERIF_JOBS', '12')))
+        if workers <= 1 or len(arglist) <= 1:
+            for a in arglist:
+                fn(self, *a)
+            return
+        ctx = mp.get_context('fork')
+        with cf.ProcessPoolExecutor(max_workers=workers, mp_context=ctx) as ex:
+            futs = [ex.submit(_worker, self, fn, a) for a in arglist]
+            for f in futs:
+                res = f.result()
+                for ob in res['obligations']:
+                    self.obligations.append(ob)
+                self.functions.update(res['functions'])
+                self.trusted |= res['trusted']
+                for m in res['inconclusive']:
+                    self.inconclusive.append(m)
+                for a in res['assumptions']:
+                    if a not in self.assumptions:
+                        self.assumptions.append(a)
+                byname = {o.name: o for o in res['obligations']}
+                for (obname, key, what, witness, replay) in res['reports']:
+                    self.report(byname.get(obname) or self.obligations[-1], key, what, witness, replay)
+
     def report(self, ob, key, what, witness, replay):
         """A candidate violation.  `replay` = dict(commands=[...], expect=callable(results)->(bool, detail)).
         Known (listed) findings print KNOWN-FINDING; others are replayed natively and only reported when
         they reproduce."""
+        if getattr(self, 'defer_reports', None) is not None:
+            if not any(r[1] == key for r in self.defer_reports):
+                self.defer_reports.append((ob.name, key, what, witness, replay))
+            if ob.status in ('pending', 'discharged'):
+                ob.status = 'reported'
+            return 'deferred'
         k = self.is_known(key)
         if k is not None:
             if not any(x[0] == key for x in self.known_hit):
@@ -150,7 +200,8 @@ class Check:
         d = os.path.join(VERIF, 'replays', self.pid, h)
         os.makedirs(d, exist_ok=True)
         rec = {'property': self.pid, 'key': key, 'what': what, 'witness': witness,
-               'commands': replay.get('commands', []), 'expect': replay.get('expect_desc', '')}
+               'commands': replay.get('commands', []),
+               'expect': replay.get('expect') if not callable(replay.get('expect')) else replay.get('expect_desc', '')}
         ok, detail = False, ''
         try:
             profiles = ['dev'] + (['release'] if self.thorough else [])
@@ -158,9 +209,10 @@ class Check:
             for prof in profiles:
                 results[prof] = oracle.run(replay['commands'], prof)
             rec['results'] = results
-            ok, detail = replay['expect'](results['dev'])
+            exp = resolve_expect(replay['expect'])
+            ok, detail = exp(results['dev'])
             if ok and 'release' in results:
-                ok2, d2 = replay['expect'](results['release'])
+                ok2, d2 = exp(results['release'])
                 rec['release_reproduces'] = ok2
                 detail += ' | release: ' + d2
         except Exception as e:      # noqa: BLE001
@@ -245,6 +297,28 @@ class Check:
             return 2
         print("OK property=%s tier=%s obligations=%d queries=%d wall=%.1fs" % (self.pid, self.tier, len(obs), evaluations, wall))
         return 0
+
+
+def _worker(parent, fn, args):
+    sub = Check(parent.pid, ['--tier', parent.tier])
+    sub.seed = parent.seed
+    sub.programs = parent.programs
+    sub.defer_reports = []
+    try:
+        fn(sub, *args)
+    except Inconclusive as e:
+        sub.note_inconclusive('%s%r: %s' % (fn.__name__, args, e))
+    except Exception as e:      # noqa: BLE001
+        sub.note_inconclusive('%s%r: internal error %r\n%s' % (fn.__name__, args, e, traceback.format_exc()[-1500:]))
+    for o in sub.obligations:
+        if not o.wall:
+            o.wall = time.time() - getattr(o, '_t', time.time())
+        if o.status == 'pending':
+            o.status = 'inconclusive'
+        if o.status == 'reported':
+            o.status = 'discharged'     # parent decides (known / violated) when it processes the reports
+    return {'obligations': sub.obligations, 'functions': sub.functions, 'trusted': sub.trusted,
+            'inconclusive': sub.inconclusive, 'assumptions': sub.assumptions, 'reports': sub.defer_reports}
 
 
 def z3_version():
